@@ -56,6 +56,9 @@ def step (cfg : Cfg) (_ : Unit) (line : String) : Unit × String :=
         let cls :=
           if a == "snappy" then "C24-snappy-no-checksum"
           else if a == "lz4" && d == "" && dl ≤ 11 then "C24-lz4-truncated-frame-header"
+          -- lz4: a block-size field enlarged so that end mark and checksum are swallowed as data and the
+          -- stream then simply ends: the reader accepts the missing end mark (original is a strict prefix)
+          else if a == "lz4" && d.startsWith orig && d.length > orig.length then "C24-lz4-missing-endmark-accepted"
           else if a == "zstd" && d == "" && dl == 0 then "C24-zstd-empty-input"
           else s!"C24-{a}-lib-undetected-corruption"
         let fl := if d != orig then s!"\t#F:{cls}" else ""
